@@ -70,6 +70,13 @@ def class_tables(model, sx, cls):
                     for k in n.value.keys:
                         if isinstance(k, ast.Constant):
                             adv[k.value] = [[]]
+    # ... or from the evaluated value when the dictionary is built by a comprehension over a table of names
+    from sa.sx import Dv
+    for o in done:
+        for e in o.state.effects:
+            if e[0] == 'store' and e[1] == 'self' and e[2].endswith('__time_variables') and isinstance(e[3], Dv):
+                for k in e[3].items:
+                    adv.setdefault(k, [[]])
     adv_paths = {}
     for o in done:
         keys_here = set()
